@@ -68,6 +68,13 @@ pub fn panic_catcher_get_backtrace() -> Option<String> {
     })
 }
 
+/// Verification hook (read-only): nesting level of `catch_panic` on the
+/// current thread.
+#[cfg(wirefilter_verif)]
+pub fn verif_panic_catcher_level() -> u64 {
+    PANIC_CATCHER_LEVEL.with(|b| b.get())
+}
+
 /// Configures the fallback behavior when
 /// a panic occurs outside of `catch_panic`.
 pub fn panic_catcher_set_fallback_mode(
